@@ -68,12 +68,13 @@ pub fn expand_type_support(input: &DeriveInput) -> Result<TokenStream> {
 
                 let member_id = if struct_member_attributes.hashid {
                     let member_hash = <[u8; 16]>::from(md5::compute(member_name.as_bytes()));
+                    // DDS-XTypes 7.3.1.2.1.1: the hashed member id keeps the 28 bits that fit a member id
                     let member_hash_int = u32::from_le_bytes([
                         member_hash[0],
                         member_hash[1],
                         member_hash[2],
                         member_hash[3],
-                    ]);
+                    ]) & 0x0FFF_FFFF;
                     syn::parse_str(&member_hash_int.to_string())?
                 } else {
                     match r#struct.extensibility {
